@@ -102,16 +102,22 @@ private:
                           >
                    > row_buffer( view.width() );
 
-        for( int y = 0; y != view.height(); ++ y)
-        {
-            std::copy( view.row_begin( y )
-                     , view.row_end  ( y )
-                     , row_buffer.begin()
-                     );
+        // an interlaced file (image_write_info::_interlace_method) takes every row once per pass
+        int const number_passes = png_set_interlace_handling( this->get_struct() );
 
-            png_write_row( this->get_struct()
-                         , reinterpret_cast< png_bytep >( row_buffer.data() )
+        for( int pass = 0; pass < number_passes; ++pass )
+        {
+            for( int y = 0; y != view.height(); ++ y)
+            {
+                std::copy( view.row_begin( y )
+                         , view.row_end  ( y )
+                         , row_buffer.begin()
                          );
+
+                png_write_row( this->get_struct()
+                             , reinterpret_cast< png_bytep >( row_buffer.data() )
+                             );
+            }
         }
 
         png_write_end( this->get_struct()
@@ -138,6 +144,13 @@ private:
         detail::row_buffer_helper_view< View > row_buffer( view.width()
                                                          , false
                                                          );
+
+        // libpng picks the pixels of a pass out of the packed row before it applies the bit
+        // order transformation this writer relies on: rows of less than 8 bits per pixel
+        // cannot be handed to it for interlacing
+        io_error_if( png_set_interlace_handling( this->get_struct() ) != 1
+                   , "Interlaced png files cannot be written from images with less than 8 bits per channel."
+                   );
 
         for( int y = 0; y != view.height(); ++y )
         {
